@@ -29,7 +29,9 @@ package utils
 //@   site call Unmarshal@1 SANVALUE: [C20] requires arg0 == extension.Value && asn1.OIDEqual(extension.Id, OIDSubjectAltName)
 //@   site call UnmarshalWithParams OTHERNAME: [C20] requires arg0 == value.FullBytes && value.Tag == 0 && arg2 == "tag:0"
 //@   site call Unmarshal@2 NAMEVALUE: [C20] requires arg0 == on.Value.Bytes && asn1.OIDEqual(on.ID, OIDReceptorName)
-//@   site call append@2 DECODED: [C20] requires arg1[0] == name && lastcall("Unmarshal", 1) == nil
+//@   site call append DECODED: [C20] requires len(arg1) == 1 && arg1[0] == name
+//@   site call append AFTERDECODE: [C20] requires err == nil
+//@   site call append RECEPTOROID: [C20] requires asn1.OIDEqual(on.ID, OIDReceptorName)
 //@   ensures NOPARTIAL: [C20] result.1 != nil ==> result.0 == nil
 //@   loop range extensions
 //@     invariant OWNLIST: fresh(names)
